@@ -118,6 +118,9 @@ def random_desc(rng, exact=True, n_nodes=None, n_extra=None, kinds=None, degener
         rescale_sources(d, rng.choice(MAGNITUDES))
     if rng.random() < levels:
         rescale_impedances(d, rng.choice(LEVELS))
+    if rng.random() < 0.12:
+        for b in d['branches']:
+            b['np'] = True          # numpy-scalar typed values (make_element)
     return d
 
 def _random_desc(rng, exact=True, n_nodes=None, n_extra=None, kinds=None, degenerate=0.0,
@@ -167,9 +170,22 @@ def _random_desc(rng, exact=True, n_nodes=None, n_extra=None, kinds=None, degene
 
 # --------------------------------------------------------------------------- conversion
 
+def _np_typed(a):
+    """the same values as numpy scalars (results of np.sqrt, np.linspace, complex_value(...) are such objects)"""
+    import numpy as np
+    out = {}
+    for k, v in a.items():
+        if isinstance(v, bool) or not isinstance(v, (int, float, complex)): out[k] = v
+        elif isinstance(v, complex): out[k] = np.complex128(v)
+        elif isinstance(v, float): out[k] = np.float64(v)
+        else: out[k] = v
+    return out
+
 def make_element(d):
     from CircuitCalculator.Network import elements as elm
     k, a, name = d['kind'], d['args'], d['id']
+    if d.get('np'):
+        a = _np_typed(a)
     if k == 'resistor':   return elm.resistor(name, a['R'])
     if k == 'conductor':  return elm.conductor(name, a['G'])
     if k == 'impedance':  return elm.impedance(name, a['Z'])
@@ -220,7 +236,7 @@ def shape(desc):
     return (len(nodes), len(desc['branches']), ks)
 
 def pretty(desc):
-    return dict(zero=desc['zero'], branches=[f"{d['id']}:{d['kind']}({d['n1']},{d['n2']}){d['args']}" for d in desc['branches']])
+    return dict(zero=desc['zero'], branches=[f"{d['id']}:{d['kind']}({d['n1']},{d['n2']}){d['args']}" + (' [numpy scalars]' if d.get('np') else '') for d in desc['branches']])
 
 # --------------------------------------------------------------------------- bounded-exhaustive
 
